@@ -23,7 +23,7 @@ Definition run_cfg (ov : list (string * N)) : Config :=
   config_of (fun k => match lookup k ov with Some v => v | None => blk_num k end) (fun _ => [0; 0; 0; 1]).
 (* sigkind 0: the aggregate verifies; 1: it does not; 2: the signature is the point at infinity *)
 Definition run_env (ov : list (string * N)) (sigkind : N) : Env :=
-  mk_env (run_cfg ov) (fun _ _ _ => sigkind =? 0) (fun _ _ _ => sigkind =? 0) (fun _ => repeat 0 48) (fun _ _ _ => true).
+  mk_env (run_cfg ov) Base.Sha256.sha256 (fun _ _ _ => sigkind =? 0) (fun _ _ _ => sigkind =? 0) (fun _ => repeat 0 48) (fun _ _ _ => true).
 
 (* validator of a case: (eth1 credential?, effective balance, slashed, activation, exit, withdrawable) *)
 Definition cval := (bool * N * bool * N * N * N)%type.
